@@ -76,7 +76,7 @@ def compare_variant(case, fx, p1, variant, res):
         rec = []
         texts = {}
         for c in fx.callables:
-            texts[c.kind + ':' + c.name] = cased_text(c.body, variant, rec)
+            texts[c.key] = cased_text(c.body, variant, rec)
         fx2 = prebuildfix.Fixture(case['tape'], texts=texts)
     except Exception as e:
         raise Violation('fixture-exception:' + exc_bucket(e), case, repr(e))
